@@ -5,7 +5,10 @@
     the early ring buffer until EOF, hand every chunk to w.Write: "no boot log lost") is the model's
     [io_copy_contract] = [drain] + [deliver], whose Read is tied by translation (C16_ring_read_is_translation) and whose
     effect C16_ring_boot / C16_bringup prove.  kfmt.Printf (one line: Fprintf(outputSink, format, args...)) is not
-    translated; the formatter is C15's subject (C15_fprintf_is_translation). *)
+    translated; the formatter is C15's subject (C15_fprintf_is_translation).
+    (Audit note: the second conjunct of C16_setOutputSink_is_translation holds by unfolding - [io_copy_contract] is DEFINED as
+    the rest of the model's [set_output_sink] - so it names the assumption about io.Copy, it does not prove it; the
+    content of the theorem is the first conjunct: one store and exactly one io.Copy event.  No hypotheses.) *)
 From Coq Require Import NArith String List.
 From FF Require Import Lib.Word Lib.GoOps Gen.Trans_kfmt_sink Kfmt.Fmt Hal.Model Kfmt.SinkTrans.
 Import ListNotations.
